@@ -38,7 +38,15 @@ func c20Package(rng *rand.Rand, idx int) rcase {
 		}
 		pi.Raw = raw
 		resp := echo
-		if rng.Intn(2) == 0 {
+		if oi%3 == 2 {
+			// a JSON body with arrays of arrays defined in place (answered from a table shared by every request)
+			grid := &JS{Kind: "obj", Members: []JM{
+				{Name: "grid", Req: true, S: &JS{Kind: "arr", Inner: &JS{Kind: "arr", Inner: &JS{Kind: "int", Bits: 64}}}},
+				{Name: "id", Req: true, S: &JS{Kind: "str"}},
+				{Name: "rows", Req: false, S: &JS{Kind: "arr", Inner: &JS{Kind: "arr", Inner: &JS{Kind: "arr", Inner: &JS{Kind: "str"}}}}},
+			}}
+			resp.Content, resp.Schema = "application/json", grid.Dialect(&sp.CompSchemas)
+		} else if rng.Intn(2) == 0 {
 			// a raw (non-JSON) body next to the echo header: the handler streams a body derived from the digest
 			resp.Content, resp.Schema = "application/octet-stream", &dialect.Schema{Type: "string", Format: "binary"}
 		}
